@@ -281,3 +281,21 @@ Theorem code_coordinate_gene_to_transcript_is_model : forall gst gs ge member ts
   Py_GenomicAnnotation.coordinate_gene_to_transcript gst gs ge member tst ex i = gene2tx gst gs ge member tst ex i.
 Proof. exact code_coordinate_gene_to_transcript_is_model_l. Qed.
 Print Assumptions code_coordinate_gene_to_transcript_is_model.
+
+(* gtf/GTFPointer.py iterate_pointer -- a generator; `yield p` appends to the returned list -- translated from the
+   source on every run (coq/Gen/Py_GTFPointer.v): byte offsets over the byte lines, comment lines counted, gene /
+   transcript pointers opened, extended (`.end = line_end`) and yielded in the model's order, transcript ids added to
+   the current gene pointer.  Hypothesis: no line is empty (a line read from a file handle is not): the code tests
+   `if cur_gene_pointer:` through GTFPointer.__len__ (end - start > 0), the model GtfPtr.istep tests "is set"; on an
+   empty first line of a block the two differ, everywhere else they are equal. *)
+From MoPep Require Gen.Py_GTFPointer.
+From MoPep Require Import Model.PyRt Proofs.Py2CoqGtfPtrProofs.
+
+Theorem code_gtf_iterate_pointer_translated : Py_GTFPointer.py_gtf_iterate_pointer_untranslated = false.
+Proof. vm_compute. reflexivity. Qed.
+Print Assumptions code_gtf_iterate_pointer_translated.
+
+Theorem code_gtf_iterate_pointer_is_model : forall lines, Forall (fun l => fst l <> []) lines ->
+  Py_GTFPointer.py_gtf_iterate_pointer lines = POk (iterate lines).
+Proof. exact code_gtf_iterate_pointer_is_model_l. Qed.
+Print Assumptions code_gtf_iterate_pointer_is_model.
